@@ -362,4 +362,32 @@ def bridgeMintRows (t : Table) (data : List Item) : List (String × Nat) × List
 payloads makes the handler fail before the totals are touched. -/
 def bridgeMintFails (data : List Item) : Bool := data.isEmpty
 
+/-! ### applying the merged events, in list order, to a table of the query database
+
+`WorkEvents` hands the merged events to `addStat` strictly in the order of the merger list. Stand-in for one table
+(there is no Postgres here): INSERT creates (or overwrites) the row of a key, UPDATE of an absent row matches nothing,
+an additive UPDATE (`reward = reward + x`) likewise. -/
+
+inductive RowOp where
+  | insert (k : String) (v : Nat)
+  | update (k : String) (v : Nat)
+  | add (k : String) (v : Nat)
+deriving DecidableEq, Repr
+
+def RowOp.key : RowOp → String
+  | .insert k _ => k
+  | .update k _ => k
+  | .add k _ => k
+
+def applyRow (tbl : List (String × Nat)) : RowOp → List (String × Nat)
+  | .insert k v => upsert tbl k v
+  | .update k v => match lookup tbl k with
+    | some _ => upsert tbl k v
+    | none => tbl
+  | .add k v => match lookup tbl k with
+    | some x => upsert tbl k ((x + v) % U64)
+    | none => tbl
+
+def applyRows (tbl : List (String × Nat)) (ops : List RowOp) : List (String × Nat) := ops.foldl applyRow tbl
+
 end ZChain.Events
